@@ -74,6 +74,15 @@ class FakeStr:
         return f"FakeStr({self.s!r})"
 
 
+class _FalsyMeta(type):
+    def __len__(cls):
+        return 0
+
+
+class Falsy(metaclass=_FalsyMeta):
+    """a class OBJECT that is falsy (its metaclass defines __len__, as registries and record classes do); instances are truthy"""
+
+
 class MyTuple(tuple):
     pass
 
@@ -92,3 +101,15 @@ def some_generator():
 
 
 USER_CLASSES = [A, B, C, D, E, F, X, Y, XY1, YX1, MyList, MyDict, MyInt, MyStr, MyTuple, Outer, Outer.Inner]
+
+
+def _named(n):
+    return type(n, (), {"__module__": __name__})
+
+
+# ordinary user classes whose bare names are those of typing forms and of the rewriters' own method suffixes: nothing may
+# treat them as anything but classes
+NAMED_LIKE_TYPING = [_named(n) for n in ("Union", "Generator", "TypedDict", "List", "Dict", "Tuple", "Set", "Any", "Optional",
+                                         "container_type", "anonymous_TypedDict")]
+for _c in NAMED_LIKE_TYPING:          # importable by name, like any other class of this module
+    globals()[_c.__name__] = _c
